@@ -5,6 +5,32 @@ HOOK_COMMITS = ["80fcbe6"]
 TODO = "check not built yet in this round; design in DESIGN.md section 5 (to be claimed when the TLA+ module and harness exist)"
 
 CLAIMS = {
+    "C14": {
+        "text": "MqttTopics.tla: the contract is the set of live subscriptions with Matches / ValidFilter on character-level topic levels ('+' exactly one level, trailing '#' the remaining levels incl. the parent), "
+                "actions Subscribe (a rejected call may apply nothing), Unsubscribe, Disconnect, Takeover; invariants RouteExact, NoResidue, Others; MqttTopicsImpl.tla (the trie: insert, remove with pruning, "
+                "findSubscribers frontier walk, session bookkeeping) is checked to refine it. TLC-generated histories are replayed in lock-step on a real TopicManager with real Session objects and on a real "
+                "Broker over loopback TCP with raw MQTT clients (10 probe topics after every operation); seeded random histories (4 clients, multi-byte and empty levels) are validated by TLC.",
+        "note": "the zero-length filter/topic and $-topics are out of scope (MQTT-4.7.3-1; the paho decoder drops them); QoS of a routed client = QoS of one of its own matching subscriptions",
+        "technique": "TLA+ spec + TLC refinement check (trie vs contract); model-based histories (TLC -simulate) replayed on TopicManager and Broker; TLC trace validation",
+    },
+    "C15": {
+        "text": "MqttDelivery.tla: Must/May delivery sets at publish time (a QoS0 copy may be dropped only when the client's queue is full), pending / received / acked, client publish -> pipeline + PUBACK; "
+                "invariants Fanout, OnlyRouted, NoResendAfterAck, PendingSound, NothingForgotten, PubAckSameId and liveness Redeliver under weak fairness; a sendMsgToClient-shaped layer refines it in its "
+                "repaired form. TLC-simulated scenarios (subscriber populations with mixed QoS and overlapping filters, ack policies prompt/late/never/hold-first, publish bursts) run on a real Broker with raw "
+                "clients, every publish repeated K=30-40 times so that all visiting orders occur; negatives are decided at a barrier (no fan-out goroutine left + PING on every client), never by time-out; the "
+                "event log is validated by TLC.",
+        "note": "retransmission clause read as: the session's oldest unacknowledged message is retransmitted until acked (the code resends the head of the pending queue); 10 s deadline extended to 50 s before reporting",
+        "technique": "TLA+ spec + TLC model checking (safety + liveness); scenario MBT (TLC -simulate) on a real Broker; TLC trace validation",
+    },
+    "C16": {
+        "text": "MqttSession.tla: one client id with owner, session existence, clean flag, subscriptions and per-connection status; implementation-shaped actions ConnectLocked, CloseAsync, Resub, Subscribe, "
+                "NetDrop, teardown steps T1-T4, WatchDelete, AdminDelete; invariants SuccessorIntact (Registered, SessionLive, Routed), ResumeOrDiscard, SupersededEndChangesNothing, AdminDeleteDisconnects - "
+                "all interleavings of three connections checked by TLC (675 k states) for the repaired teardown, refuted for teardown keyed by client id (the defect that was repaired). Schedules generated from "
+                "the contract (528 quick / 5 119 thorough, incl. resume chains) are executed on a real Broker with raw clients; the old connection's teardown is parked at two hook-free gates (will-message "
+                "pipeline call, blocking store delete); registration, session map, session content and actual delivery are observed after every step and validated by TLC.",
+        "note": "no delete notification in flight when a client connects (a stale notification overtaking a plain reconnect is outside the text); interleavings inside handleConn explored in the model only",
+        "technique": "TLA+ spec + TLC model checking of all interleavings; schedule MBT on a real Broker with hook-free parking; TLC trace validation",
+    },
     "C01": {
         "text": "TLA+ contract of HTTP routing (HttpRouter.tla: RouteSpec = lexicographically first entry whose host (port stripped), path (exact/prefix/regexp), method and header conditions match, "
                 "rewrite per mode, else 400 > 405 > 404, unknown backend 503; strings as character sequences, Strings.tla) and an implementation-shaped Search (two loops, two mismatch flags); TLC checks "
